@@ -60,3 +60,11 @@ func init() {
 		Assume: []string{"lz4.CompressBlock/UncompressBlock and snappy.Encode/Decode meet their documented contract (lossless, length-carrying, 1 <= k <= bound, never panic); the stubs are validated against the real libraries natively on every run"},
 	})
 }
+
+func init() {
+	register(&PropCheck{
+		ID: "C20", Pkgs: []string{"frame", "message"}, FnRe: `^VerifC20_`, Level: "model_checking",
+		Gen:  genEqFile,
+		Rule: "mutator histories: one harness per (message kind in {STARTUP, OPTIONS, READY, QUERY, VOID, ERROR}, version), every sequence of k mutator calls with every argument class is a path; STARTUP accessors: one inductive harness per setter from an arbitrary option map, plus setter sequences",
+	})
+}
